@@ -195,17 +195,16 @@ class MPRNLRI(Attribute, Family):
         # - 16-byte IPv6 nexthops are valid (could be global or link-local)
         # - With LLNH negotiated, 16-byte link-local (fe80::/10) is explicitly allowed
         # - Semantic interpretation of 16-byte NH depends on LLNH negotiation
-        # RFC 8950: only for the families the extended next hop was negotiated for
-        if any((nh_entry[0], nh_entry[1]) == (afi, safi) for nh_entry in negotiated.nexthop):
+        # RFC 8950: an IPv4 or IPv6 family may then carry a next hop of the other address family;
+        # every other family (BGP-LS, FlowSpec with its empty next hop, ...) keeps its own lengths
+        if negotiated.nexthop and afi in (AFI.ipv4, AFI.ipv6):
+            nh_afi = None
             if len_nh in (16, 32, 24):
                 nh_afi = AFI.ipv6
             elif len_nh in (4, 12):
                 nh_afi = AFI.ipv4
-            else:
-                raise Notify(
-                    3, 0, 'unsupported family {} {} with extended next-hop capability enabled'.format(afi, safi)
-                )
-            length, _ = Family.size[(nh_afi, safi)]
+            if nh_afi is not None and (nh_afi, safi) in Family.size:
+                length, _ = Family.size[(nh_afi, safi)]
 
         if len_nh not in length:
             raise Notify(
